@@ -175,7 +175,8 @@ class BooleanOperationsMixin:
 
         for p in paths:
             newpath = []
-            for scaledstart, scaledend in pairwise(p):
+            # the polygon is closed: walk its closing edge (last -> first) too
+            for scaledstart, scaledend in pairwise(list(p) + [p[0]]):
                 key = (Point(*scaledstart), Point(*scaledend))
                 if key in reconstructionLUT and not flat:
                     orig = reconstructionLUT[key]
